@@ -51,7 +51,15 @@ META.update({
         "frames (prices / orders / interval dictionaries / portfolio object not written). Bounded: histories <= 3 incl. own-frequency assets and an "
         "order book; structured assets. " + PROOF_NOTE)),
     'C12': dict(level='other', assumptions=['A2', 'A3', 'A4', 'A5'], explanation="proved: dt = elapsed/unit for root (Tick) and coarse grids, make_vector converts with the window's own step lengths, storage holding cost uses each later step's own length; unit-scaling lemmas for every entry form. Bounded: real grids over DST in two units. Note A4: freq 'd' with a time zone is calendar-day based in pandas (bounded part decides it)."),
-    'C14': dict(level='other', assumptions=['A2', 'A3', 'A4', 'A5', 'A6'], explanation="proved: interval grids keep the reference grid's cumulative time / discount factors (C14.discount). setup_split_optim_problem / SplitOptimProblem are not under contract: bounded split-vs-unsplit scenarios (value, balance at all nodes, step numbering, DCF accounting, order books first / last)."),
+    'C14': dict(level='other', assumptions=['A2', 'A3', 'A4', 'A5', 'A6'], explanation=(
+        "proved: interval grids keep the reference grid's cumulative time / discount factors (C14.discount); Portfolio.setup_split_optim_problem from the "
+        "real source (harness bound: 1-3 intervals, loop unrolled; grid, boundary positions, problem sizes and mappings symbolic): the non-empty "
+        "intervals partition the horizon, each is set up once on its own renumbered grid with the prices put on that grid, joint mapping steps = "
+        "first step of the interval + position, variable numbers offset by the sizes of the earlier intervals, nodal records translated, grids "
+        "restored; SplitOptimProblem.optimize / __init__ (two intervals): value = sum of interval optima, solution / duals / costs / records "
+        "concatenated in interval order; z3 lemmas (window = block of steps); Lean lemmas (uncoupled split is an unsplit optimum; split <= "
+        "unsplit under inclusion of the feasible sets). Bounded: split-vs-unsplit scenarios (value, balance at all nodes, per-asset limits, step "
+        "numbering, DCF accounting, order books first / last, unsolvable interval). " + PROOF_NOTE)),
     'C17': dict(level='other', assumptions=['A1', 'A2', 'A3', 'A5', 'A6'], explanation="proved: costs_only returns exactly the cost vector of the full set-up for the classes under contract and the portfolio concatenation; robust target: one epigraph variable, one constraint -c_s@x >= DCF_min per sample after all rows, objective = epigraph variable, reported value under own costs. make_slp is not under contract: bounded block structure + EEV <= V_slp <= wait-and-see on real solves (incl. non-dispatch future variables)."),
     'C18': dict(level='other', assumptions=['A1', 'A2', 'A3', 'A5', 'A6'], explanation="proved: the N dual is the dual of the N-class constraint; create_nodal_restr records (step, node) of every nodal row in row order; the portfolio's record lists all rows of type N (structured assets' first). Bounded: extract_output places -dual at the recorded (step, node); supergradient inequality on re-optimised portfolios (gapped activity, structured assets)."),
     'C19': dict(level='proof', assumptions=['A2', 'A3', 'A4', 'A5'], explanation=(
@@ -97,3 +105,4 @@ from . import c06  # noqa
 from . import c12  # noqa
 from . import leanlemmas  # noqa
 from . import c05  # noqa
+from . import c14  # noqa
